@@ -21,7 +21,7 @@ def pair_ops_obs(line, obs):
     out = []
     i = 0
     for op in ops:
-        if op[0] in ("feed", "feedq", "wake", "eof", "rerr", "wmode", "wplan", "settle", "yield", "drop"):
+        if op[0] in ("feed", "feedq", "wake", "eof", "rerr", "wmode", "wplan", "settle", "yield", "drop") or (op[0] == "attach" and "bg" in op):
             out.append((op, None))
             continue
         if i < len(ot):
